@@ -96,7 +96,7 @@ def main(ctx):
               "dup_after_result", "dup_after_error", "completed_ok", "completed_err",
               "reentrant_execs", "twosession_execs", "flat2_decorated_register",
               "flat2_decorated_subscribe", "flat2_encrypted_with_options", "unrequested_progress:ignored",
-              "flat2_request_from_callback"):
+              "flat2_request_from_callback", "cancelled_call_cases"):
         ctx.require(n)
 
 
@@ -1270,6 +1270,58 @@ def _job_flat2(a, env, seed):
             bad("request-wire", "un%s() from the callback of %s(): sent %r" % (kind, kind, inner[0][2]))
         elif "inner" not in l1.futs or l1.fstate("inner")[0] != "pending":
             bad("request-future", "un%s() from the callback: result %r" % (kind, l1.fbrief("inner") if "inner" in l1.futs else None))
+    # ---- (4) a pending call cancelled by the application (its Deferred / Future is cancelled): the
+    # session sends CANCEL; whatever the router then answers for that request - ERROR
+    # wamp.error.canceled, a RESULT that raced the CANCEL, a progressive RESULT followed by the ERROR,
+    # or nothing - is the reply to THAT request, not a protocol violation; the next call is unaffected
+    from autobahn.wamp import message as M
+    for answer in ("error-canceled", "result-raced", "progress-then-error", "nothing", "error-twice"):
+        for _once in (None,):
+            l1 = H.L1().join()
+            s = l1.session
+            prog = []
+            kw = {}
+            if answer == "progress-then-error":
+                kw["options"] = T.CallOptions(on_progress=lambda *a_, **k_: prog.append(a_))
+            d = s.call("com.cancel.p", 1, **kw)
+            l1.track("c", d)
+            l1.settle()
+            req = [m for m in l1.transport.sent if isinstance(m, M.Call)][-1].request
+            try:
+                d.cancel()
+            except Exception as e:
+                bad("api-raised", "cancelling a pending call raised %r" % (e,))
+            l1.settle()
+            evals += 1
+            stats["cancelled_call_cases"] += 1
+            cancels = [m for m in l1.transport.sent if isinstance(m, M.Cancel)]
+            if len(cancels) != 1 or cancels[0].request != req:
+                bad("request-wire", "cancelled call %d: CANCEL messages sent %r" % (req, [c.request for c in cancels]))
+                continue
+            msgs = {"error-canceled": [M.Error(M.Call.MESSAGE_TYPE, req, "wamp.error.canceled")],
+                    "result-raced": [M.Result(req, args=[1])],
+                    "progress-then-error": [M.Result(req, args=[0], progress=True),
+                                            M.Error(M.Call.MESSAGE_TYPE, req, "wamp.error.canceled")],
+                    "nothing": [],
+                    "error-twice": [M.Error(M.Call.MESSAGE_TYPE, req, "wamp.error.canceled")]}[answer]
+            for m in msgs:
+                exc = l1.deliver(m)
+                if exc is not None:
+                    bad("reply-to-cancelled-call-rejected", "%s for the cancelled call %d raised %s" % (
+                        type(m).__name__, req, H.exc_brief(exc)))
+            if prog:
+                # (a progressive result that raced the CANCEL is still handed to on_progress: allowed)
+                stats["progress_after_cancel_delivered"] += 1
+            if l1.fstate("c")[0] == "ok":
+                bad("cancelled-call-succeeded", "the cancelled call completed successfully: %s" % (l1.fbrief("c"),))
+            # the next call of the session is answered normally
+            d2 = s.call("com.cancel.q", 2)
+            l1.track("c2", d2)
+            l1.settle()
+            req2 = [m for m in l1.transport.sent if isinstance(m, M.Call)][-1].request
+            exc = l1.deliver(M.Result(req2, args=["second"]))
+            if exc is not None or l1.fstate("c2")[:2] != ("ok", "second") and l1.fstate("c2")[0] != "ok":
+                bad("call-after-cancel", "call after a cancelled one: raised %r, state %s" % (exc, l1.fbrief("c2")))
     return {"evals": evals, "viol": viol, "stats": dict(stats, flat_execs=evals, transitions=evals),
             "samples": [{"kind": "flat2", "cases": evals}]}
 
